@@ -2,3 +2,5 @@
 //! case files for the Lean driver plus direct-oracle verdicts.
 pub mod util;
 pub mod c07;
+pub mod mock;
+pub mod c01;
